@@ -83,7 +83,7 @@ def cases_for(prop, tier, seed):
                 # the shared source of a connectable is a source subscribed on the subscribers' behalf: it must stop when the last one left
                 [c for c in gen.fam_connectables(g, "C06-conn", 40 * k) + gen.fam_conn_reentrant(g, "C06-cre", 0) if "ref_count" in c or "replay" in c])
     if prop == "C07":
-        return (gen.fam_reentrant(g, "C07-re", 10) + gen.fam_teardown(g, "C07-td", 30 * k) +
+        return (gen.fam_reentrant(g, "C07-re", 10) + gen.fam_reentrant_closures(g, "C07-cl") + gen.fam_teardown(g, "C07-td", 30 * k) +
                 gen.fam_connectables(g, "C07-conn", 30 * k) + gen.fam_conn_reentrant(g, "C07-cre", 0) + gen.fam_subjects(g, "C07-subj", 20 * k) +
                 gen.fam_chains(g, "C07-chain", 100 * k) + gen.fam_hot(g, "C07-hot", 100 * k))
     if prop == "C10":
